@@ -62,7 +62,7 @@ def run(ctx):
     defs = {"MCVals": "StrUpTo({LA, LZ}, 2)" if quick else "StrUpTo({LA, LZ}, 2) \\cup {<<EACUTE>>, <<LA, EACUTE>>, <<CJK>>}",
             "MCArities": "{1, 2}", "MCThird": "<<UZ>>"}
     mc = mc_module("MCVecGen", "VecGen", defs)
-    cfg = "CONSTANTS\n  ValSet <- MCVals\n  Arities <- MCArities\n  ThirdVal <- MCThird\n  Arity = 2\n  Tuples = {}\nSPECIFICATION GSpec\nINVARIANTS Emit Injective\nCHECK_DEADLOCK FALSE\n"
+    cfg = "CONSTANTS\n  ValSet <- MCVals\n  Arities <- MCArities\n  ThirdVal <- MCThird\n  Arity = 2\n  Tuples = {}\n  Amounts = {1}\nSPECIFICATION GSpec\nINVARIANTS Emit Injective\nCHECK_DEADLOCK FALSE\n"
     r = tlc(ctx, "VecGen", cfg, mc_text=mc, mc_name="MCVecGen", workers=8, label="gen", timeout=3000)
     if not r["ok"]:
         raise ToolError("VecGen failed: %s\n%s" % (r["violated"], r["output"][-3000:]))
